@@ -33,13 +33,23 @@ def words_of(size, busword, ordering):
 class Spec:
     def __init__(self, kind, size=None, atomic=False, wfd=False, fields=None, reset=0, read_only=True, n=None):
         self.kind, self.atomic, self.wfd, self.fields, self.reset, self.read_only, self.n = kind, atomic, wfd, fields, reset, read_only, n
+        self.given_offsets = None
         if fields:
+            # reference placement: an explicit offset is taken as it is, offset=None means "right after the previous field"
+            self.given_offsets = [o for (_, s, o, _, _) in fields]
+            placed, run = [], 0
+            for (fn, s, o, p, r) in fields:
+                o = run if o is None else o
+                placed.append((fn, s, o, p, r))
+                run = o + s
+            self.fields = fields = placed
             size = max(o + s for (_, s, o, _, _) in fields)
             self.reset = sum(r << o for (_, s, o, _, r) in fields)
         self.size = size
 
     def make(self, name):
-        flds = [CSRField(fn, size=s, offset=o, pulse=p, reset=r) for (fn, s, o, p, r) in (self.fields or [])]
+        flds = [CSRField(fn, size=s, offset=(o if self.given_offsets is None else self.given_offsets[k]), pulse=p, reset=r)
+                for k, (fn, s, o, p, r) in enumerate(self.fields or [])]
         if self.kind == "storage":
             return CSRStorage(self.size, reset=self.reset, fields=flds, atomic_write=self.atomic, write_from_dev=self.wfd, name=name, n=self.n)
         if self.kind == "status":
@@ -139,8 +149,9 @@ class CsrHarness(Harness):
                 dev.append([("n",)])
         self.devops = list(itertools.product(*dev))
         # static: address ranges of registers are disjoint (by construction of `a`) and match the bank's simple CSR count
+        self.static_err = None
         if len(d.bank.simple_csrs) != self.nwords:
-            raise MachineryError(f"bank has {len(d.bank.simple_csrs)} words, reference layout has {self.nwords}")
+            self.static_err = ("layout.words", f"bank has {len(d.bank.simple_csrs)} bus words, the reference layout of the description has {self.nwords}")
 
     def env_init(self):
         st = []
@@ -194,6 +205,8 @@ class CsrHarness(Harness):
     def observe(self, v, env, ch):
         b, dv = ch
         st, datr = env
+        if self.static_err is not None:
+            return env, self.static_err, 0
         if v[self.dat_r] != datr:
             return env, ("read.dat_r", f"dat_r exp {datr:#x} got {v[self.dat_r]:#x} (value of the word addressed in the previous cycle, 0 if not selected)"), 0
         adr = b[1] if b[0] in ("w", "r") else 0
@@ -305,6 +318,9 @@ for b in (8, 32):
             reg(f"bank[{base}] status(17,rw) storage(9,wfd)", "thorough", specs=[S("status", 17, read_only=False), S("storage", 9, wfd=True)], busword=b, ordering=ordering)
         reg(f"bank[{base}] storage(fields: a@0:2 pulse, b@3:3 reset5, c@{b}:2) storage(2)", "quick",
             specs=[S("storage", fields=[("a", 2, 0, True, 0), ("b", 3, 3, False, 5), ("c", 2, b, False, 1)]), S("storage", 2)], busword=b, ordering=ordering)
+    reg(f"bank[bus{b},big] storage(fields: a@0:2, b@4:3 reset5, c@auto:2 reset2, d@auto:1 pulse) storage(2)", "quick",
+        specs=[S("storage", fields=[("a", 2, 0, False, 0), ("b", 3, 4, False, 5), ("c", 2, None, False, 2), ("d", 1, None, True, 0)]), S("storage", 2)],
+        busword=b, ordering="big")
     reg(f"bank[bus{b},big,sorted] storage(4,n=2) storage({b+1}) status(3)", "quick",
         specs=[S("storage", 4, n=2), S("storage", b + 1), S("status", 3)], busword=b, ordering="big", sort=True)
     reg(f"bank[bus{b},big,sorted] storage(4,n=4) raw(2,n=0) storage(3)", "quick",
@@ -312,14 +328,85 @@ for b in (8, 32):
 
 
 def configs(tier):
-    return [(n,) for n, (t, f) in REGISTRY.items() if t == "quick" or tier == "thorough"]
+    return [(n,) for n, (t, f) in REGISTRY.items() if t == "quick" or tier == "thorough"] + [(AGG,)]
 
 
 def tuple_deep(x):
     return tuple(tuple_deep(y) for y in x) if isinstance(x, (list, tuple)) else x
 
 
+AGG = "fields.aggregate(1..3 fields, sizes 1..3, offsets None/0/1/2/4/7, exhaustive)"
+
+
+def run_aggregate(name):
+    """every field list of the menu through the real CSRFieldAggregate: placement (explicit offset kept, None = right after the
+    previous field), rejection of out-of-order / overlapping lists, register size and reset composition."""
+    import itertools
+    from litex.soc.interconnect.csr import CSRFieldAggregate, CSRAccess
+    offs, sizes = (None, 0, 1, 2, 4, 7), (1, 2, 3)
+    n_eval, distinct, viol = 0, set(), {}
+    for n in (1, 2, 3):
+        for combo in itertools.product(itertools.product(sizes, offs), repeat=n):
+            n_eval += 1
+            run, exp, ok = 0, [], True
+            for (sz, o) in combo:
+                if o is None:
+                    o = run
+                elif o < run:
+                    ok = False
+                    break
+                exp.append(o)
+                run = o + sz
+            fields = [CSRField(f"f{k}", size=sz, offset=o, reset=(1 << sz) - 1 - k % 2) for k, (sz, o) in enumerate(combo)]
+            try:
+                agg = CSRFieldAggregate(fields, CSRAccess.ReadWrite)
+                got = ([f.offset for f in fields], agg.get_size(), agg.get_reset())
+            except ValueError:
+                got = None
+            if ok:
+                want = (exp, exp[-1] + combo[-1][0], sum((((1 << sz) - 1 - k % 2) << o) for k, ((sz, _), o) in enumerate(zip(combo, exp))))
+            else:
+                want = None
+            distinct.add((tuple(exp), ok))
+            if got != want:
+                rule = "fields.placement" if (ok and got is not None) else ("fields.rejected_valid" if ok else "fields.accepted_overlap")
+                if rule not in viol:
+                    viol[rule] = dict(rule=rule, msg=f"fields (size, offset) {list(combo)}: CSRFieldAggregate gives (offsets, size, reset) {got}, the documented placement gives {want}",
+                                      detail=dict(fields=[list(c) for c in combo]), trace=None)
+    return dict(cfg=name, evaluations=n_eval, distinct=len(distinct), exhaustive=True, violations=list(viol.values()),
+                sample=dict(fields=[[2, 0], [3, 4], [2, None]], offsets=[0, 4, 7]))
+
+
+def replay_aggregate(rec):
+    from litex.soc.interconnect.csr import CSRFieldAggregate, CSRAccess
+    combo = [tuple(c) for c in rec["detail"]["fields"]]
+    r = run_aggregate_one(combo)
+    return dict(cfg=rec["cfg"], rule=rec["rule"], reproduced=r)
+
+
+def run_aggregate_one(combo):
+    from litex.soc.interconnect.csr import CSRFieldAggregate, CSRAccess
+    run, exp, ok = 0, [], True
+    for (sz, o) in combo:
+        if o is None:
+            o = run
+        elif o < run:
+            ok = False
+            break
+        exp.append(o)
+        run = o + sz
+    fields = [CSRField(f"f{k}", size=sz, offset=o) for k, (sz, o) in enumerate(combo)]
+    try:
+        CSRFieldAggregate(fields, CSRAccess.ReadWrite)
+        got = [f.offset for f in fields]
+    except ValueError:
+        got = None
+    return got != (exp if ok else None)
+
+
 def run_config(cfg, seed, tier):
+    if cfg[0] == AGG:
+        return run_aggregate(cfg[0])
     mk = REGISTRY[cfg[0]][1]
     res = Explorer(mk(), seed=seed).run()
     out = res.as_dict()
@@ -332,6 +419,8 @@ def run_config(cfg, seed, tier):
 
 
 def replay(rec):
+    if rec["cfg"] == AGG:
+        return replay_aggregate(rec)
     mk = REGISTRY[rec["cfg"]][1]
     rp = replay_stock(mk, [tuple_deep(c) for c in rec["trace"]])
     return dict(cfg=rec["cfg"], rule=rec["rule"], reproduced=rp["reproduced"], err=rp["err"], path=rp["path"], cycles=rp["cycles"])
